@@ -372,3 +372,82 @@ def ob_state_mutations(run, oid, owners, why):
                     o.fail("%s.%s|%s|%s" % (K.fshort(full), f, op, fn), "unreviewed mutation of %s.%s: `%s` in %s (reviewed: %s)" % (ow.rsplit("::", 1)[-1], f, op, fn, w or "never mutated after construction"), sp)
             else:
                 o.ok("%s.%s" % (K.fshort(full), f), "%s.%s mutated only by %s" % (ow.rsplit("::", 1)[-1], f, ", ".join("%s x%d" % (k, len(v)) for k, v in sorted(g.items())) or "(nothing)"), prog.adts[full]["span"], nontrivial=bool(g))
+
+
+# ------------------------------------------------------------------------------------ watermark comparisons
+def upvar_sources(prog, b):
+    """for a closure body: {captured name: provenance of the captured value in the enclosing body}"""
+    out = {}
+    if not b.is_closure or "::{closure" not in b.defpath:
+        return out
+    parent = prog.bodies.get(b.defpath.rsplit("::{closure", 1)[0])
+    if parent is None:
+        return out
+    for (bb, i, dst, rv, sp) in parent.assignments():
+        t = parent.rvalue_term(rv)
+        if isinstance(t, tuple) and t and t[0] == "closure" and t[1] == b.defpath:
+            for nm, ot in t[2]:
+                out[nm] = parent.provenance(ot, depth=8)
+    return out
+
+
+WATERMARK_FIELDS = (("FinalityTracker", "first_unpruned_slot"), ("ParentReadyTracker", "root"))
+
+
+def watermark_comparisons(prog, prefixes):
+    """every `<`-type comparison in the given modules one side of which is a pruning watermark:
+    [(fn, span, form, lhs, rhs)] with form 'X<wm' (also covers X >= wm) or 'wm<X' (covers X <= wm, X > wm) or '?'"""
+    out = []
+    for d, b in sorted(prog.bodies.items()):
+        if b.generated or not any(p in d for p in prefixes):
+            continue
+        us = upvar_sources(prog, b)
+
+        def is_wm_pv(pv):
+            return any(x.endswith("::first_unpruned_slot") for x in pv["calls"]) or any(
+                (ow.rsplit("::", 1)[-1], n) in WATERMARK_FIELDS for (ow, n) in pv["fields"])
+        wmups = set(n for n, pv in us.items() if is_wm_pv(pv))
+
+        def wm(t):
+            if K.mentions_call(t, "first_unpruned_slot") or any(K.mentions_field(t, f, o) for (o, f) in WATERMARK_FIELDS):
+                return True
+            if K.mentions(t, lambda x: x[0] == "upvar" and x[1] in wmups):
+                return True
+            if K.mentions(t, lambda x: x[0] == "local"):
+                return is_wm_pv(b.provenance(t))
+            return False
+        cands = []
+        for (s, dterm, dty) in b.switches():
+            for v, atoms in G.switch_atoms(b, s, prog).items():
+                for a in atoms:
+                    if a[0] == "lt" and a[2] is True:
+                        cands.append((a[1], b.blocks[s]["term"].get("sp", "")))
+        for (bb, i, dst, rv, sp) in b.assignments():
+            nb = G.norm_bool(b.rvalue_term(rv), True)
+            if nb[0] == "lt":
+                cands.append((nb[1], sp))
+        for c in b.calls():
+            nb = G.norm_bool(b.call_term(c.bb, c.raw), True)
+            if nb[0] == "lt":
+                cands.append((nb[1], c.span))
+        seen = set()
+        for (x, y), sp in cands:
+            wx, wy = wm(x), wm(y)
+            if not (wx or wy):
+                continue
+            form = "X<wm" if (wy and not wx) else "wm<X" if (wx and not wy) else "?"
+            k = (sp.rsplit(":", 1)[0], form, mir.show(x)[:60], mir.show(y)[:60])
+            if k in seen:
+                continue
+            seen.add(k)
+            out.append((K.fshort(d), sp, form, x, y))
+    return out
+
+
+def ob_watermark_comparisons(run, oid, prefixes, floor, why):
+    prog = run.program("lib")
+    o = run.ob(oid, "every comparison of a slot with a pruning watermark has the form `slot < watermark` (or its negation): the slot AT the watermark is the first retained one",
+               why, floor=floor)
+    for (fn, sp, form, x, y), key in K.ordinal_keys(watermark_comparisons(prog, prefixes), lambda r: "%s|watermark-comparison" % r[0]):
+        o.check(form == "X<wm", key, "compares as `X < watermark` / `X >= watermark` (found: %s %s %s)" % (mir.show(x)[:50], "<" if form != "?" else "?", mir.show(y)[:50]), sp,
+                {"form": form})
